@@ -31,3 +31,21 @@ func (wd *DefWatchDog) VerifExpiredRound() error { return wd.handleExpiredTaskIn
 
 // VerifLeftBehindRound runs one round of the left-behind-instance sweep.
 func (wd *DefWatchDog) VerifLeftBehindRound() error { return wd.handleLeftBehindDagIns() }
+
+// VerifTreeStatuses returns the in-memory status of every node reachable from
+// root through child links (no status restriction), keyed by task instance id.
+func VerifTreeStatuses(root *TaskNode) map[string]entity.TaskInstanceStatus {
+	out := map[string]entity.TaskInstanceStatus{}
+	var rec func(n *TaskNode)
+	rec = func(n *TaskNode) {
+		for _, c := range n.children {
+			if _, ok := out[c.TaskInsID]; ok {
+				continue
+			}
+			out[c.TaskInsID] = c.Status
+			rec(c)
+		}
+	}
+	rec(root)
+	return out
+}
